@@ -270,19 +270,28 @@ class FindLocalPeaksRough(_PeakBase):
 class FindLocalPeaks(_PeakBase):
     target = "sleap_nn.inference.peak_finding.find_local_peaks"
     props = ("C06", "C12", "C03")
-    cases = ("none", "integral5")
-    thorough_cases = ("none", "integral1", "integral3", "integral5", "integral7")
+    # "integralP": any map (rows/indices/values unchanged by refinement);
+    # "integralP+": maps without negative/NaN cells and threshold >= 0 (the bound on the move)
+    cases = ("none", "integral5", "integral5+")
+    thorough_cases = ("none", "integral1", "integral1+", "integral3", "integral3+", "integral5", "integral5+", "integral7", "integral7+")
     bounded = ("integral refinement is unrolled for the listed odd patch sizes (quick: 5; thorough: 1,3,5,7)",)
     not_decided = ("integral refinement on maps with a one-pixel side (outside the trusted kornia crop contract); refined coordinates on maps containing NaN cells",)
 
     no_crosscheck_nan = True
 
     def inputs(self, c, case):
-        d = self._inputs(c, nan_ok=(case == "none" or c.symbolic))
+        plus = case.endswith("+")
+        c.nonneg_case = plus
+        if plus:
+            S, C, H, W = c.dim("S", lo=1), c.dim("C", lo=1), c.dim("H", lo=1), c.dim("W", lo=1)
+            d = dict(cms=c.tensor("cms", [S, C, H, W], FLOAT, nan_ok=False, lo=0.0), threshold=c.real("threshold"))
+            c.assume(V.f_le(0.0, d["threshold"]))
+        else:
+            d = self._inputs(c, nan_ok=(case == "none" or c.symbolic))
         if case == "none":
             d.update(refinement=None, integral_patch_size=5)
         else:
-            d.update(refinement="integral", integral_patch_size=int(case[len("integral"):]))
+            d.update(refinement="integral", integral_patch_size=int(case[len("integral"):].rstrip("+")))
         return d
 
     def requires(self, c, cms, threshold=0.2, refinement=None, integral_patch_size=5):
@@ -301,13 +310,11 @@ class FindLocalPeaks(_PeakBase):
         cr = cms.reader()
         if c.symbolic:
             # Carve-out of known finding C06/negative-patch: the bound on the refinement offset
-            # is proved for maps without negative or NaN cells and thresholds >= 0 (the weights
-            # of the integral regression are then non-negative with a positive sum).
-            idx = [z3.Int(V.fresh_name("nn")) for _ in range(4)]
-            rng = V.b_and(*[V.b_and(i >= 0, V.i_lt(i, d)) for i, d in zip(idx, cms.shape)])
-            v = V.sfloat(cr(idx))
-            hyp = V.b_and(z3.ForAll(idx, V.zbool(V.b_implies(rng, V.b_and(V.b_not(v.nan), v.val >= 0)))), V.f_le(0.0, threshold))
-            return rough_clauses(c, result, cms, threshold, half=half, position_hyp=hyp)
+            # is proved (case "integralP+") for maps without negative or NaN cells and
+            # thresholds >= 0 (the regression weights are then non-negative with positive sum).
+            if getattr(c, "nonneg_case", False):
+                return rough_clauses(c, result, cms, threshold, half=half, position_hyp=True)
+            return [x for x in rough_clauses(c, result, cms, threshold, half=half, position_hyp=True) if "within-half" not in x[0]]
         cells = itertools.product(*[range(int(d)) for d in cms.shape])
         in_region = any((V.f_isnan(cr(list(ix))) or cr(list(ix)) < 0) for ix in cells) or threshold < 0
         cl = rough_clauses(c, result, cms, threshold, half=half, position_hyp=(False if in_region else True))
